@@ -2167,10 +2167,11 @@ def serialize_tensor_into(
     if isinstance(from_, TensorProtoTensor):
         # Directly copy from the tensor proto if it is available
         tensor_proto.CopyFrom(from_.raw)
+        # The copied proto already carries the original entries; replace them with the
+        # (possibly edited) metadata_props. Clear them unconditionally so that deleting
+        # every key from tensor.metadata_props takes effect as well
+        del tensor_proto.metadata_props[:]
         if from_.metadata_props:
-            # The copied proto already carries the original entries; replace them
-            # with the (possibly edited) metadata_props instead of appending
-            del tensor_proto.metadata_props[:]
             _serialize_metadata_props_into(tensor_proto.metadata_props, from_.metadata_props)
         return
 
